@@ -145,9 +145,10 @@ class RefStore:
                 delta = int(sc["max_age"])
                 expiry = now + delta
             except ValueError:
+                # RFC 6265 5.2.2: a Max-Age that is not a number is ignored, so Expires (if any, and if it parses) applies
                 expiry = None
-                if sc.get("expires") is not None:
-                    dontcare = True  # RFC: ignore the bad Max-Age, Expires applies; aiohttp: session cookie
+                if sc.get("bad_date") is None and sc.get("expires") is not None:
+                    expiry = float(sc["expires"])
         elif sc.get("bad_date") is not None:
             expiry = None  # RFC 6265 5.2.1: a date that fails to parse -> the attribute is ignored (session cookie)
         elif sc.get("expires") is not None:
@@ -319,6 +320,20 @@ def execute(case: dict) -> dict:
                 jar.update_cookies_from_headers([set_cookie_header(sc)], URL(f"{url[0]}://{url[1]}{url[2]}"))
                 history.append((sc, url))
                 stats["reissue"] = stats.get("reissue", 0) + 1
+            elif kind == "churn":
+                # a session-refresh cookie re-issued on many responses with a sliding lifetime: every re-issue schedules
+                # another expiry (the jar keeps a heap of them and compacts it now and then)
+                _, n_resp, lifetimes, url = op
+                url = tuple(url)
+                for k in range(n_resp):
+                    counter += 1
+                    sc = {"name": "z", "value": f"v{counter}", "max_age": str(lifetimes[k % len(lifetimes)])}
+                    ref.set_cookie(sc, url, clock.now)
+                    jar.update_cookies_from_headers([set_cookie_header(sc)], URL(f"{url[0]}://{url[1]}{url[2]}"))
+                    if k % 40 == 39:
+                        jar.filter_cookies(URL(f"{url[0]}://{url[1]}{url[2]}"))  # a request in between (runs the expiry sweep)
+                history.append((sc, url))
+                stats["churn"] = stats.get("churn", 0) + 1
             elif kind == "tick":
                 clock.now += op[1]
                 n0 = len(ref.cookies)
@@ -361,7 +376,7 @@ def execute(case: dict) -> dict:
 def body(rec: Rec, case: dict) -> None:
     stats = execute(case)
     nt = stats["shared_name"] or stats["saveload"] or stats["expired"] or stats["clears"]
-    labels = [k for k in ("shared_name", "saveload", "expired", "clears") if stats[k]]
+    labels = [k for k in ("shared_name", "saveload", "expired", "clears", "churn") if stats.get(k)]
     rec.case(case, bool(nt), labels)
     rec.extra["filter_queries"] = rec.extra.get("filter_queries", 0) + stats["queries"]
 
@@ -398,6 +413,7 @@ def cases(draw, trailing_slash: bool = False):
         st.tuples(st.just("tick"), st.sampled_from([1, 5, 6, 50, 100])),
         st.just(("saveload",)),
         st.just(("reissue",)),
+        st.tuples(st.just("churn"), st.sampled_from([30, 101, 130, 220]), st.sampled_from([[300], [300, 200], [7, 300], [3]]), url),
         st.sampled_from([("clear",), ("clear_name", "a"), ("clear_domain", "example.com"), ("clear_domain", "sub.example.com")]),
     )
     return {
